@@ -2,12 +2,13 @@ SPECIFICATION GSpec
 CONSTANTS
   Members = {"p", "q"}
   Vals = {1, 2, 3, 4}
+  HwMax = 3
   Depth = 5
   Layouts = {"combined", "separate"}
   WM = {"q"}
-  WV = {3}
+  WV = {4}
   AM = {"p"}
-  AV = {4}
+  AV = {3}
   RM = {"q"}
   SWV = {0}
   SAV = {1}
